@@ -25,5 +25,13 @@ MCNext ==
 
 MCSpec == MCInit /\ [][MCNext]_mcvars
 
+\* the same exploration with a sink that may fail during any call (C15 at design level)
+FaultNext == \/ MCNext
+             \/ (Len(calls) < MaxCalls /\ Step("sinkfail", 0, SinkFails))
+             \/ (Len(calls) < MaxCalls /\ Step("flushfail", 0, FlushFails))
+FaultSpec == MCInit /\ [][FaultNext]_mcvars
+\* a failure reported by Write / ReadFrom / the trailer of Close is sticky: no further output
+FailureIsSticky == (failed /\ ws = "error") => ~ENABLED Write(1)
+
 Emit == Len(calls) = MaxCalls => PrintT(ToJson([kind |-> "writer_history", calls |-> calls]))
 =============================================================================
